@@ -35,6 +35,8 @@ type c10Defect struct {
 	NoCall string
 	// NoValue: the response must not carry a non-null value under the alias dfx (the selection was not resolved)
 	NoValue bool
+	// Vars: variable definitions (no default, no value supplied) the defect needs on every operation
+	Vars []world.VarDef
 }
 
 // dfxValues collects the non-null values found under the response key dfx.
@@ -74,6 +76,17 @@ func c10Defects() []c10Defect {
 		// a field that the CONCRETE type behind the container defines but the container type itself does not
 		{Name: "field-of-implementation-only", Needs: "interface", Make: func(*world.TypeDef) *world.Sel { return al(world.F("id")) }, Names: "id", NoValue: true},
 		{Name: "field-directly-under-union", Needs: "union", Make: func(*world.TypeDef) *world.Sel { return al(world.F("name")) }, Names: "name", NoValue: true},
+		// the required argument is written, but as a variable that has no value and no default
+		{Name: "required-arg-through-unset-variable", Needs: "echo", Make: func(*world.TypeDef) *world.Sel {
+			return echo(world.Arg{Name: "s", Value: world.VarRef("zq7v")}, world.Arg{Name: "b", Value: true})
+		}, Names: "", NoCall: "field:echo", Vars: []world.VarDef{{Name: "zq7v", Type: "String"}}},
+		// the defect hides behind a response key that a valid selection of the same set has already used
+		{Name: "undefined-field-under-used-key", Needs: "i", Make: func(*world.TypeDef) *world.Sel {
+			return world.In("", world.Al("dfx", world.F("i")), world.Al("dfx", world.F("zq7")))
+		}, Names: "zq7"},
+		{Name: "omitted-required-arg-under-used-key", Needs: "echo", Make: func(*world.TypeDef) *world.Sel {
+			return world.In("", echo(world.Arg{Name: "s", Value: "x"}, world.Arg{Name: "b", Value: true}), echo())
+		}, Names: ""},
 		{Name: "unknown-directive", Needs: "i", Make: func(*world.TypeDef) *world.Sel { return al(world.F("i")).With(world.Dir{Name: "zq7"}) }},
 		{Name: "misplaced-directive", Needs: "i", Make: func(*world.TypeDef) *world.Sel { return al(world.F("i")).With(world.Dir{Name: "deprecated"}) }},
 		{Name: "undefined-type-condition-inline", Make: func(td *world.TypeDef) *world.Sel { return world.In("Zq7", world.F("__typename")) }},
@@ -184,6 +197,14 @@ func runC10(c *core.Ctx) {
 				if df.Needs == "frag" {
 					nd.Frags = append(nd.Frags, &world.Frag{Name: "FZq", Cond: "Zq7", Sels: []*world.Sel{world.F("__typename")}})
 				}
+				if len(df.Vars) > 0 {
+					for _, o := range nd.Ops {
+						if o.Anon {
+							o.Anon = false // "query ($zq7v: String) {...}": an operation needs its keyword to declare variables
+						}
+						o.Vars = append(o.Vars, df.Vars...)
+					}
+				}
 				text := nd.Render(world.LOneLine)
 				ft := d.Features(s)
 				ck := containerKind(s, st.container, false)
@@ -253,14 +274,14 @@ func runC10(c *core.Ctx) {
 								if ar.Key.Field != parts[1] {
 									continue
 								}
-								if parts[0] == "field" && !strings.HasPrefix(df.Name, "omitted-required-arg") {
+								if parts[0] == "field" && !strings.HasPrefix(df.Name, "omitted-required-arg") && df.Name != "required-arg-through-unset-variable" {
 									c.Outcome("resolver-invoked")
 									c.Violation("resolver-invoked", attrs, mk("resolver invoked for undefined field "+parts[1]))
 									bad = true
 									break
 								}
-								if parts[0] == "field" && strings.HasPrefix(df.Name, "omitted-required-arg") {
-									if _, has := ar.Args["s"]; !has {
+								if parts[0] == "field" && (strings.HasPrefix(df.Name, "omitted-required-arg") || df.Name == "required-arg-through-unset-variable") {
+									if v, has := ar.Args["s"]; !has || (v == nil && df.Name == "required-arg-through-unset-variable") {
 										c.Outcome("resolver-invoked")
 										c.Violation("resolver-invoked", attrs, mk("resolver invoked without the required argument s"))
 										bad = true
